@@ -44,15 +44,16 @@ func scaleRuns(n int) int {
 
 // candidate violation, from an END record or from a dead child
 type violation struct {
-	Flavour string
-	Run     int
-	Seed    uint64
-	Class   string
-	Message string
-	Sig     map[string]any
-	Config  json.RawMessage
-	Choices []int
-	IsDeath bool
+	ChunkFrom int
+	Flavour   string
+	Run       int
+	Seed      uint64
+	Class     string
+	Message   string
+	Sig       map[string]any
+	Config    json.RawMessage
+	Choices   []int
+	IsDeath   bool
 }
 
 type checkState struct {
@@ -144,15 +145,15 @@ func (cs *checkState) run() int {
 					e := &r.ends[i]
 					agg.add(t.spec.Flavour, e)
 					if e.Class != "" {
-						viols = append(viols, violation{Flavour: t.spec.Flavour, Run: e.Run, Seed: e.Seed, Class: e.Class, Message: e.Message, Sig: e.Signature, Config: e.Config, Choices: e.Choices})
+						viols = append(viols, violation{ChunkFrom: t.spec.From, Flavour: t.spec.Flavour, Run: e.Run, Seed: e.Seed, Class: e.Class, Message: e.Message, Sig: e.Signature, Config: e.Config, Choices: e.Choices})
 						for _, m := range e.More {
-							viols = append(viols, violation{Flavour: t.spec.Flavour, Run: e.Run, Seed: e.Seed, Class: m.Class, Message: m.Message, Sig: m.Signature, Config: e.Config, Choices: e.Choices})
+							viols = append(viols, violation{ChunkFrom: t.spec.From, Flavour: t.spec.Flavour, Run: e.Run, Seed: e.Seed, Class: m.Class, Message: m.Message, Sig: m.Signature, Config: e.Config, Choices: e.Choices})
 						}
 					}
 				}
 				for _, d := range r.deaths {
 					agg.addDeath(t.spec.Flavour)
-					viols = append(viols, violation{Flavour: t.spec.Flavour, Run: d.Begin.Run, Seed: d.Begin.Seed, Class: d.Class, Message: d.Note, IsDeath: true})
+					viols = append(viols, violation{ChunkFrom: t.spec.From, Flavour: t.spec.Flavour, Run: d.Begin.Run, Seed: d.Begin.Seed, Class: d.Class, Message: d.Note, IsDeath: true})
 				}
 				for _, st := range r.stalls {
 					agg.addStall(st.Class)
@@ -392,6 +393,33 @@ func (cs *checkState) confirmAndWrite(v violation, deadline time.Time) (path str
 			return "", false, err.Error()
 		}
 		hits, attempts, last, note = confirm()
+	}
+	if hits < 2 && v.Run > v.ChunkFrom {
+		// perhaps the run depends on state an earlier run of the same child left behind in the package under test:
+		// replay it after the runs that preceded it in its chunk, then try to get by with the last few of them
+		var all []int
+		for i := v.ChunkFrom; i < v.Run; i++ {
+			all = append(all, i)
+		}
+		rf.BySeed, rf.Choices, rf.BaseSeed, rf.Prelude = true, nil, cs.seed, all
+		writeReplay(path, &rf)
+		if hits, attempts, last, note = confirm(); hits >= 2 {
+			for _, n := range []int{1, 2, 4, 16} {
+				if n >= len(all) {
+					break
+				}
+				short := rf
+				short.Prelude = all[len(all)-n:]
+				writeReplay(path, &short)
+				if h, _, _, _ := confirm(); h >= 2 {
+					rf = short
+					break
+				}
+			}
+			rf.ReplayNote = fmt.Sprintf("the violation needs the %d preceding run(s) of the check executed in the same process first: the package under test keeps state between calls", len(rf.Prelude))
+			writeReplay(path, &rf)
+			return path, true, ""
+		}
 	}
 	if hits < 2 {
 		os.Remove(path)
